@@ -224,6 +224,54 @@ func runC15(c *Ctx) {
 		c.mustFollowIter(fn, "rebroadcast says Confirmed", c.successEdges(gC), conf, "confChan <- tx.TxHash()", nil, 1)
 	})
 
+	c.rule("C15.V3", "every pending transaction is part of every rebroadcast: in rebroadcast's loop over the dependency-sorted transactions each iteration reaches cfg.Broadcast(tx), the only way past it being the shutdown poll; no transaction is left out of a run because of what happened to another one in the same run (a child whose parent was refused this time is still sent: whether it is an orphan is for the peers to say, and a parent that keeps failing would otherwise keep its descendants from ever being rebroadcast)", func() {
+		fn := c.fn(fnRebroadcast)
+		bc := c.field("pushtx", "Config", "Broadcast")
+		calls := find(fn, callVia(bc))
+		if len(calls) != 1 {
+			c.fail(c.nm(fn)+" | every transaction of the run reaches Broadcast", c.P.Pos(fn.Pos()), fmt.Sprintf("%d Broadcast call(s), 1 tabled", len(calls)))
+			return
+		}
+		h := ir.LoopHeaderOf(calls[0].Block())
+		if h == nil {
+			c.fail(c.nm(fn)+" | every transaction of the run reaches Broadcast", c.at(calls[0]), "Broadcast is not called in a loop over the pending transactions")
+			return
+		}
+		in := ir.LoopBlocks(h)
+		var starts []start
+		for i, sc := range h.Succs {
+			if in[sc] {
+				starts = append(starts, atEdge(c, ir.Edge{From: h, Succ: i}, "next pending transaction"))
+			}
+		}
+		// the shutdown poll: the quit arm of a select on Broadcaster.quit
+		quitF := c.field("pushtx", "Broadcaster", "quit")
+		cut := ir.Cut{}
+		ir.Instrs(fn, func(x ssa.Instruction) {
+			sel, ok := x.(*ssa.Select)
+			if !ok {
+				return
+			}
+			for i, st := range sel.States {
+				if st.Dir != types.RecvOnly || !loadsField(quitF)(st.Chan) {
+					continue
+				}
+				for _, r := range ir.Refs(sel) {
+					ex, isEx := r.(*ssa.Extract)
+					if !isEx || ex.Index != 0 {
+						continue
+					}
+					for _, ib := range ir.IntEqBranches(ex) {
+						if ib.K == int64(i) {
+							cut[ib.Edge()] = true
+						}
+					}
+				}
+			}
+		})
+		c.mustFollowIter(fn, "each pending transaction", starts, func(x ssa.Instruction) bool { return x == calls[0] }, "cfg.Broadcast(tx)", cut, 1)
+	})
+
 	c.rule("C15.P1", "at most one rebroadcast at a time: the trigger takes the single semaphore token (non-blocking) before it spawns the goroutine, hands it a copy of the pending set, and the goroutine gives the token back only after rebroadcast returned, on every path", func() {
 		fn := c.fn(fnBHandler)
 		// semaphore: chan struct{} made with capacity 1 in broadcastHandler
